@@ -267,6 +267,7 @@ def C13(F, rep, tier, cx):
     RF.O3(F, rep, cx.R, cx.FL)
     RF.O4(F, rep, cx.R, cx.FL)
     RP.K6(F, rep, cx.R, cx.FL, cx.ws())   # "sessions shut down cleanly": close() must be able to return (shared with C06)
+    RF.A1(F, rep)                          # good()/eof() report the queue's state, read() hands the caller what the queue returned
 
 
 def C14(F, rep, tier, cx):
